@@ -5,7 +5,7 @@ RC4 key lengths 1..256 and piece sequences on one object incl. empty pieces - TL
 import core
 from core import B, limbs
 
-def stream_event(kind, key, nonce, rounds, m, ctr0=0, op='enc'):
+def stream_event(kind, key, nonce, rounds, m, ctr0=0, op='enc', prehash=None):
     from crysp.bits import Bits
     from crysp.salsa20 import Salsa20
     from crysp.chacha import Chacha
@@ -14,6 +14,9 @@ def stream_event(kind, key, nonce, rounds, m, ctr0=0, op='enc'):
         cls = Salsa20 if kind == 'salsa' else Chacha
         o = cls(Bits(key, bitorder=1), rounds)
         if ctr0: o._verif_block0 = ctr0
+        if prehash is not None:                       # the bare hash function called on the KEYED object first: it must not disturb the key block
+            try: o.hash(prehash)
+            except Exception: pass
         r = getattr(o, op)(Bits(nonce, bitorder=1), m); e['obs'] = B(r) if isinstance(r, (bytes, bytearray)) else [-1]
     except Exception as ex: e['raised'] = type(ex).__name__
     return e
@@ -43,6 +46,12 @@ def run(ctx):
         for c0 in ((1 << 32) - 2, (1 << 32) - 1, 1 << 32, (1 << 32) + 1) + (((1 << 48) - 1, (1 << 33) - 1) if big else ()):
             for rounds in (8, 20):
                 ev.append(stream_event(kind, rb(32), rb(8), rounds, rb(150), ctr0=c0)); ctx.mark((kind, 'carry', c0, rounds))
+        # the last blocks of the 2^64-block stream (the message ends inside block 2^64-1)
+        for c0, n in (((1 << 64) - 1, 64), ((1 << 64) - 1, 5), ((1 << 64) - 2, 128), ((1 << 64) - 2, 100)):
+            ev.append(stream_event(kind, rb(32), rb(8), 8, rb(n), ctr0=c0)); ctx.mark((kind, 'last blocks', c0, n))
+        for klen in (16, 32):
+            ev.append(stream_event(kind, rb(klen), rb(8), 20, rb(70), prehash=rb(64))); ev.append(stream_event(kind, rb(klen), rb(8), 12, rb(70), prehash=bytes(64), op='dec'))
+            ctx.mark((kind, 'hash() before enc', klen))
     from crysp.salsa20 import Salsa20
     for cls in range(8 if big else 4):
         x = [bytes(64), b'\xff' * 64, bytes(range(64)), rb(64), rb(64), rb(64), rb(64), rb(64)][cls]
